@@ -45,10 +45,14 @@ def sibling_pairs(ctx, rep, rule: str, pairs: list[tuple[str, str, str]], tail_i
     repo = ctx.repo
     n = 0
     for a, b, meth in pairs:
-        fa = repo.cls(a).methods.get(meth)
-        fb = repo.cls(b).methods.get(meth)
+        fa = repo.lookup_method(repo.cls(a), meth)  # own or inherited: copies merged into a shared base agree trivially
+        fb = repo.lookup_method(repo.cls(b), meth)
         if fa is None or fb is None:
             raise AnalysisError(f"{rule}: sibling method {meth} missing in {(a if fa is None else b).split(':')[1]} (sibling table is out of date)")
+        if fa is fb or fa.qual == fb.qual:
+            n += 1
+            rep.ob(rule, f"sibling:{meth}:{a.split(':')[1]}~{b.split(':')[1]}", True, fa.loc(), f"both classes use the one shared definition {fa.qual.split(':')[1]}", nontrivial=False)
+            continue
         if meth == "__init__":
             import dataclasses
 
